@@ -504,6 +504,10 @@ func c02histGen(c *ctx, r *gen.Rng, n int) {
 			// --default-backend-service: its backend is referenced by no host
 			out = append([]string{"opt~db=" + gen.Pick(r, cfg.Namespaces) + "/" + gen.Pick(r, cfg.Services)}, out...)
 		}
+		if r.Chance(1, 3) {
+			// backend shards: several backends per shard file, only the changed shards are rewritten
+			out = append([]string{"opt~shards=" + gen.Pick(r, []string{"1", "2", "3"})}, out...)
+		}
 		faults := "-"
 		if r.Chance(1, 3) {
 			var fs []string
@@ -538,6 +542,12 @@ func runC02(c *ctx) {
 	// 8f7ea63: the service behind --default-backend-service goes away: no host changes, a reload is needed
 	c02hist(c, "-", strings.Fields("opt~db=d/web svc+d/web!http:80:8080!- ep~d/web!10.0.3.1:r:web-1 svc+d/app!http:80:8080!- ep~d/app!10.0.1.1:r:app-1 "+
 		"ing+d/i1@1!haproxy,-!-!a.local>/a:Prefix:app:80!-!- sync svc-d/web sync"))
+	// shards: two backends of one shard dirty in the same reconcile, one re-parsed unchanged (Shrink drops it), the
+	// other updated through the socket: the shard file must follow (2 shards, 4 services: some pair shares a shard)
+	c02hist(c, "-", strings.Fields("opt~shards=2 svc+d/app!http:80:8080!- ep~d/app!10.0.1.1:r:app-1 svc+d/api!http:80:8080!- ep~d/api!10.0.2.1:r:api-1 "+
+		"svc+d/web!http:80:8080!- ep~d/web!10.0.3.1:r:web-1 svc+e/app!http:80:8080!- ep~e/app!10.1.1.1:r:app-1 "+
+		"ing+d/i1@1!haproxy,-!-!a.local>/a:Prefix:app:80+/b:Prefix:api:80+/c:Prefix:web:80!-!- ing+e/i2@2!haproxy,-!-!b.local>/:Prefix:app:80!-!- sync "+
+		"ep~d/app!10.0.1.2:r:app-2 sync ep~d/api!10.0.2.2:r:api-2 sync ep~d/web!10.0.3.2:r:web-2 sync ep~e/app!10.1.1.2:r:app-2 sync"))
 	r := gen.New(c.seed)
 	n := 6000
 	if c.thorough() {
